@@ -28,7 +28,7 @@ type World struct {
 	logBuf *syncBuf
 
 	mu     sync.Mutex
-	conns  []*imapserver.Conn  // by session index-1
+	conns  []*imapserver.Conn   // by session index-1
 	inner  []imapserver.Session // the backend's session objects
 	onConn func(sess int, g int64)
 	onIdle func(sess int, g int64)
@@ -170,6 +170,25 @@ func (w *World) Cmd(s int, line string) (string, error) {
 		return "", err
 	}
 	return t.Name, nil
+}
+
+// untilTagged reads responses up to the tagged completion.  A completion that
+// is not at the start of a line (the server wrote it behind an unfinished
+// response) is reported as status "GARBLED": the command did finish on the
+// server, but no IMAP client can see that.
+func untilTagged(r *vh.Raw, tag string) (string, string, error) {
+	for {
+		resp, err := r.ReadResp()
+		if err != nil {
+			return "", "", err
+		}
+		if resp.Tag == tag {
+			return resp.Name, resp.Raw, nil
+		}
+		if i := strings.Index(resp.Raw, tag+" "); i > 0 {
+			return "GARBLED", resp.Raw, nil
+		}
+	}
 }
 
 func (w *World) Must(s int, line string) error {
